@@ -22,7 +22,7 @@ RULE = ("Hypothesis: 1-4 well-formed sequences over a shared pool of 2 channels 
 ASSUMPTIONS = ["the velocity kept by a fused note is not part of the statement",
                "control/program changes are generated as noise but their fate is not part of the statement"]
 TIERS = {"quick": dict(shards=8, examples=1200, alt_ppqn=[480], alt_shards=2),
-         "thorough": dict(size=2, shards=16, examples=15000, alt_ppqn=[480, 7, 1000], alt_shards=4)}
+         "thorough": dict(fuzz_runs=20000, fuzz_shards=4, size=2, shards=16, examples=15000, alt_ppqn=[480, 7, 1000], alt_shards=2)}
 
 
 @st.composite
